@@ -17,6 +17,10 @@
    without it does (every endpoint, https included, is a plaintext connection).  The harness
    build has tls-ring, tls-native-roots and tls-webpki-roots ([t_features]).
 
+   INPUTS: tonic's [Certificate] / [Identity] are PEM blobs; a blob is the list of its CERTIFICATE
+   sections ([pem_sec]: a certificate, decodable junk, or an undecodable section), so a CA blob
+   may hold any number of CAs ([s_client_ca_root] is ONE blob, [c_certs] a list of blobs).
+
    Statements only: each theorem is closed by [exact] of a lemma proved in Proofs/Tls.v. *)
 From Coq Require Import List Bool NArith.
 From Verif Require Import Lib.Obs Model.Tls Proofs.Tls.
@@ -43,55 +47,86 @@ Proof. exact @call_sent_implies_authenticated. Qed.
 (* the connector's roots are exactly the configured ones, its name is the configured domain or
    else the URI host, it offers h2 only *)
 Theorem c15_tls_config_wiring :
-  forall (cert ca dname : Type) (valid_name : dname -> bool) (native_certs webpki_roots : list ca)
+  forall (cert ca dname : Type) (valid_name : dname -> bool) (key_matches : cert -> cert -> bool)
+         (native_certs webpki_roots : list ca)
          (f : features) (s : scheme) (h : option dname) (c : @ClientTlsConfig cert ca dname) (e : Endpoint),
-  endpoint_tls_config valid_name native_certs webpki_roots f (endpoint_from_uri s h) c = inr e ->
+  endpoint_tls_config valid_name key_matches native_certs webpki_roots f (endpoint_from_uri s h) c = inr e ->
   e_scheme e = s /\
   exists (t : TlsConnector) (d : dname),
     e_tls e = Some t /\
     effective_domain c h = Some d /\ valid_name d = true /\ tc_domain t = d /\
     tc_roots t = configured_roots native_certs webpki_roots f c /\
-    tc_identity t = c_identity c /\ tc_assume_http2 t = c_assume_http2 c /\
+    tc_identity t = identity_leaf key_matches (c_identity c) /\
+    tc_assume_http2 t = c_assume_http2 c /\
     tc_alpn t = [ALPN_H2].
 Proof. exact @tls_config_wiring. Qed.
 
 (* the verified name is the configured domain or else the host of the endpoint URI - never the
    host of the origin override, whether Endpoint::origin was called before tls_config (any
-   starting endpoint [e0], its [e_origin] arbitrary) ... *)
+   starting endpoint [e0]: its [e_origin] arbitrary, an earlier tls_config's connector in
+   [e_tls] or none - the new connector replaces it) ...
+   Also: it is a Uri endpoint (tls_config on a unix-socket endpoint is an error), every CA blob
+   decodes, a configured identity is presented (never silently dropped). *)
 Theorem c15_verified_name_never_from_origin :
-  forall (cert ca dname : Type) (valid_name : dname -> bool) (native_certs webpki_roots : list ca)
+  forall (cert ca dname : Type) (valid_name : dname -> bool) (key_matches : cert -> cert -> bool)
+         (native_certs webpki_roots : list ca)
          (f : features) (e0 : @Endpoint cert ca dname) (c : ClientTlsConfig) (e : Endpoint),
-  endpoint_tls_config valid_name native_certs webpki_roots f e0 c = inr e ->
-  e_scheme e = e_scheme e0 /\ e_host e = e_host e0 /\ e_origin e = e_origin e0 /\
+  endpoint_tls_config valid_name key_matches native_certs webpki_roots f e0 c = inr e ->
+  e_uds e0 = false /\
+  e_uds e = e_uds e0 /\ e_scheme e = e_scheme e0 /\ e_host e = e_host e0 /\ e_origin e = e_origin e0 /\
   exists (t : TlsConnector) (d : dname),
     e_tls e = Some t /\
     effective_domain c (e_host e0) = Some d /\ valid_name d = true /\ tc_domain t = d /\
     tc_roots t = configured_roots native_certs webpki_roots f c /\
-    tc_identity t = c_identity c /\ tc_assume_http2 t = c_assume_http2 c /\
+    forallb pem_decodes (c_certs c) = true /\
+    tc_identity t = identity_leaf key_matches (c_identity c) /\
+    (c_identity c <> None -> tc_identity t <> None) /\
+    tc_assume_http2 t = c_assume_http2 c /\
     tc_alpn t = [ALPN_H2].
 Proof. exact @tls_config_wiring_gen. Qed.
 
-(* ... or after it: the origin changes nothing about who is reached and who is served *)
+Theorem c15_tls_config_on_uds_is_refused :
+  forall (cert ca dname : Type) (valid_name : dname -> bool) (key_matches : cert -> cert -> bool)
+         (native_certs webpki_roots : list ca)
+         (f : features) (e0 : @Endpoint cert ca dname) (c : ClientTlsConfig),
+  e_uds e0 = true ->
+  endpoint_tls_config valid_name key_matches native_certs webpki_roots f e0 c = inl EInvalidTlsConfigForUds.
+Proof. exact @tls_config_uds. Qed.
+
+(* an identity is accepted (client and server side alike) only if its certificate blob decodes
+   and starts with a certificate and the key blob holds that certificate's key; that
+   certificate is the one presented *)
+Theorem c15_identity_wiring :
+  forall (cert : Type) (key_matches : cert -> cert -> bool) (id : Identity cert) (leaf : cert),
+  certified_key key_matches id = inr leaf ->
+  pem_decodes (id_cert id) = true /\
+  (exists rest, id_cert id = SecCert leaf :: rest) /\
+  exists k, id_key id = Some k /\ key_matches k leaf = true.
+Proof. exact @certified_key_spec. Qed.
+
+(* ... or after it.  The origin IS read by the model where the code reads it: it becomes the
+   scheme and authority of the requests ([request_target], AddOrigin); the connector is called
+   with the endpoint URI ([connect_uri], Reconnect), so who is reached, what is verified and who
+   is served do not change *)
 Theorem c15_origin_irrelevant :
   forall (cert ca dname : Type) (rc : @TlsConnector cert ca dname -> @server cert ca -> hs_client)
          (ra : TlsAcceptor -> option cert -> hs_server) (f : features)
-         (o : option (scheme * option dname)) (e : Endpoint) (srv : server),
-  connect_outcome rc f (apply_origin o e) srv = connect_outcome rc f e srv /\
-  request_reaches_handler rc ra f (apply_origin o e) srv = request_reaches_handler rc ra f e srv /\
-  peer_certs_exposed rc ra f (apply_origin o e) srv = peer_certs_exposed rc ra f e srv.
-Proof.
-  exact (fun cert ca dname rc ra f o e srv =>
-           conj (origin_irrelevant_connect rc f o e srv)
-             (conj (origin_irrelevant_handler rc ra f o e srv)
-                   (origin_irrelevant_peer_certs rc ra f o e srv))).
-Qed.
+         (o : scheme * option dname) (e : Endpoint) (srv : server),
+  request_target (apply_origin (Some o) e) = o /\
+  connect_uri (apply_origin (Some o) e) = connect_uri e /\
+  connect_outcome rc f (apply_origin (Some o) e) srv = connect_outcome rc f e srv /\
+  request_reaches_handler rc ra f (apply_origin (Some o) e) srv = request_reaches_handler rc ra f e srv /\
+  peer_certs_exposed rc ra f (apply_origin (Some o) e) srv = peer_certs_exposed rc ra f e srv /\
+  wire_of f (apply_origin (Some o) e) = wire_of f e.
+Proof. exact @origin_only_names_requests. Qed.
 
 (* root store only from configured CAs; platform / webpki roots only with their feature AND flag *)
 Theorem c15_roots_only_configured :
   forall (cert ca dname : Type) (native_certs webpki_roots : list ca) (f : features)
          (c : @ClientTlsConfig cert ca dname) (r : ca),
   In r (configured_roots native_certs webpki_roots f c) ->
-  In r (c_trust_anchors c) \/ In r (c_certs c) \/
+  In r (c_trust_anchors c) \/
+  (exists blob, In blob (c_certs c) /\ In (SecCert r) blob) \/
   (f_native_roots f = true /\ c_with_native_roots c = true /\ In r native_certs) \/
   (f_webpki_roots f = true /\ c_with_webpki_roots c = true /\ In r webpki_roots).
 Proof. exact @configured_roots_origin. Qed.
@@ -102,7 +137,7 @@ Theorem c15_roots_without_flags :
   forall (cert ca dname : Type) (native_certs webpki_roots : list ca) (f : features)
          (c : @ClientTlsConfig cert ca dname),
   c_with_native_roots c = false -> c_with_webpki_roots c = false ->
-  configured_roots native_certs webpki_roots f c = c_trust_anchors c ++ c_certs c.
+  configured_roots native_certs webpki_roots f c = c_trust_anchors c ++ flat_map pem_certs (c_certs c).
 Proof. exact @configured_roots_no_flags. Qed.
 
 (* https without TLS configuration: the error, nothing transmitted, no handler *)
@@ -112,7 +147,8 @@ Theorem c15_https_without_tls_fails :
   f_tls f = true -> is_https (e_scheme e) = true -> e_tls e = None ->
   connect_outcome rc f e srv = ConnErr HttpsUriWithoutTlsSupport /\
   call_transmitted (connect_outcome rc f e srv) = false /\
-  request_reaches_handler rc ra f e srv = false.
+  request_reaches_handler rc ra f e srv = false /\
+  wire_of f e = 0.
 Proof. exact @https_without_tls_fails. Qed.
 
 (* never a fallback to plaintext, whatever rustls answers (no premise on the oracles), in a
@@ -120,8 +156,28 @@ Proof. exact @https_without_tls_fails. Qed.
 Theorem c15_no_plaintext_fallback :
   forall (cert ca dname : Type) (rc : @TlsConnector cert ca dname -> @server cert ca -> hs_client)
          (f : features) (e : Endpoint) (srv : server),
-  f_tls f = true -> is_https (e_scheme e) = true -> connect_outcome rc f e srv <> ConnPlain.
+  f_tls f = true -> is_https (e_scheme e) = true ->
+  connect_outcome rc f e srv <> ConnPlain /\
+  request_channel (connect_outcome rc f e srv) <> Some ChPlain /\
+  wire_of f e <> 2.
 Proof. exact @no_plaintext_fallback. Qed.
+
+(* every way Connector::call can end for an https URI (TLS build): no TLS configuration, a failed
+   handshake, a completed handshake without h2 and without the opt-out, or the TLS io *)
+Theorem c15_https_connect_cases :
+  forall (cert ca dname : Type) (rc : @TlsConnector cert ca dname -> @server cert ca -> hs_client)
+         (f : features) (e : Endpoint) (srv : server),
+  f_tls f = true -> is_https (e_scheme e) = true ->
+  (e_tls e = None /\ connect_outcome rc f e srv = ConnErr HttpsUriWithoutTlsSupport) \/
+  (exists t x, e_tls e = Some t /\ rc t srv = HsErr x /\
+               connect_outcome rc f e srv = ConnErr (TlsHandshake x)) \/
+  (exists t alpn, e_tls e = Some t /\ rc t srv = HsOk alpn /\ alpn <> Some ALPN_H2 /\
+                  tc_assume_http2 t = false /\
+                  connect_outcome rc f e srv = ConnErr H2NotNegotiated) \/
+  (exists t alpn, e_tls e = Some t /\ rc t srv = HsOk alpn /\
+                  (alpn = Some ALPN_H2 \/ tc_assume_http2 t = true) /\
+                  connect_outcome rc f e srv = ConnTls alpn).
+Proof. exact @https_connect_cases. Qed.
 
 (* ... and the build assumption is necessary: without _tls-any the connector has no https
    branch at all *)
@@ -131,13 +187,33 @@ Theorem c15_build_without_tls_is_plaintext :
   f_tls f = false -> connect_outcome rc f e srv = ConnPlain.
 Proof. exact @build_without_tls_is_plaintext. Qed.
 
-(* otherwise connecting fails and no request reaches any handler *)
+(* otherwise connecting fails and no request reaches any handler: after ANY connect error
+   Connector::call hands no io to hyper ([request_channel] = None), so - whatever the listener is
+   and whatever it yielded ([ra] arbitrary) - no connection carries a request, no handler runs,
+   no certificate is exposed, no extension is built *)
 Theorem c15_connect_failure_reaches_no_handler :
   forall (cert ca dname : Type) (rc : @TlsConnector cert ca dname -> @server cert ca -> hs_client)
          (ra : TlsAcceptor -> option cert -> hs_server) (f : features) (e : Endpoint) (srv : server)
          (x : conn_err),
-  connect_outcome rc f e srv = ConnErr x -> request_reaches_handler rc ra f e srv = false.
+  connect_outcome rc f e srv = ConnErr x ->
+  request_channel (connect_outcome rc f e srv) = None /\
+  call_transmitted (connect_outcome rc f e srv) = false /\
+  handler_io rc ra f e srv = None /\
+  request_reaches_handler rc ra f e srv = false /\
+  peer_certs_exposed rc ra f e srv = None /\
+  forall t : info_ty, handler_exts rc ra t f e srv = [].
 Proof. exact @connect_failure_reaches_no_handler. Qed.
+
+(* a handler runs EXACTLY when the listener yielded the connection (ServerIoStream) and the
+   client wrote its request to its end of the same channel *)
+Theorem c15_handler_iff :
+  forall (cert ca dname : Type) (rc : @TlsConnector cert ca dname -> @server cert ca -> hs_client)
+         (ra : TlsAcceptor -> option cert -> hs_server) (f : features) (e : Endpoint) (srv : server),
+  request_reaches_handler rc ra f e srv = true <->
+  exists io : server_io,
+    listener_yields rc ra f e srv = Some io /\
+    request_channel (connect_outcome rc f e srv) = Some (io_chan io).
+Proof. exact @reaches_iff. Qed.
 
 (* a handler runs only if BOTH the listener yielded the connection (its handshake completed)
    and the client transmitted a request; the server's handshake may complete for a call the
@@ -155,66 +231,144 @@ Theorem c15_plaintext_client_not_served_by_tls_listener :
   forall (cert ca dname : Type) (rc : @TlsConnector cert ca dname -> @server cert ca -> hs_client)
          (ra : TlsAcceptor -> option cert -> hs_server) (f : features) (e : Endpoint) (a : TlsAcceptor),
   f_tls f && is_https (e_scheme e) = false ->
+  listener_yields rc ra f e (STls a) = None /\
   request_reaches_handler rc ra f e (STls a) = false.
 Proof. exact @plaintext_client_not_served_by_tls_listener. Qed.
 
-(* the server's verifier is exactly what was configured: none without a client CA,
-   allow_unauthenticated only when client auth was made optional; ALPN is h2 *)
+(* the server's verifier is exactly what was configured: none without a client CA blob; with one,
+   EVERY certificate of the blob is a root (a bundle of several CAs), the blob decodes and is
+   not empty of certificates; allow_unauthenticated only when client auth was made optional;
+   ALPN is h2; the presented certificate is the identity's leaf *)
 Theorem c15_acceptor_wiring :
-  forall (cert ca : Type) (ca_usable : ca -> bool) (s : @ServerTlsConfig cert ca) (a : TlsAcceptor),
-  tls_acceptor ca_usable s = AccOk a ->
-  s_identity s = Some (a_cert a) /\ a_alpn a = [ALPN_H2] /\
+  forall (cert ca : Type) (key_matches : cert -> cert -> bool) (s : @ServerTlsConfig cert ca) (a : TlsAcceptor),
+  tls_acceptor key_matches s = AccOk a ->
+  (exists id, s_identity s = Some id /\ certified_key key_matches id = inr (a_cert a)) /\
+  a_alpn a = [ALPN_H2] /\
   a_verifier a = match s_client_ca_root s with
-                 | Some root => WebPki root (s_client_auth_optional s)
                  | None => NoClientAuth
-                 end.
+                 | Some blob => WebPki (pem_certs blob) (s_client_auth_optional s)
+                 end /\
+  match s_client_ca_root s with
+  | None => True
+  | Some blob => pem_decodes blob = true /\ pem_certs blob <> []
+  end.
 Proof. exact @tls_acceptor_spec. Qed.
+
+(* a client CA blob in which nothing is a certificate never yields a server (nobody could be
+   verified against it) *)
+Theorem c15_acceptor_needs_a_root :
+  forall (cert ca : Type) (key_matches : cert -> cert -> bool) (s : @ServerTlsConfig cert ca)
+         (blob : list (pem_sec ca)),
+  s_client_ca_root s = Some blob -> pem_certs blob = [] ->
+  forall a : TlsAcceptor, tls_acceptor key_matches s <> AccOk a.
+Proof. exact @tls_acceptor_needs_a_root. Qed.
 
 (* Server::tls_config followed or preceded by any other builder calls (layer rebuilds the struct
    field by field; timeout, limits, windows, ... use struct update): the listener is the TLS
    listener of that configuration *)
 Theorem c15_builder_preserves_tls :
-  forall (cert ca : Type) (ca_usable : ca -> bool) (before after : list (@builder_op cert ca))
+  forall (cert ca : Type) (key_matches : cert -> cert -> bool) (before after : list (@builder_op cert ca))
          (c : ServerTlsConfig) (a : TlsAcceptor),
   Forall not_tls_op before -> Forall not_tls_op after ->
-  tls_acceptor ca_usable c = AccOk a ->
+  tls_acceptor key_matches c = AccOk a ->
   exists sv : Server,
-    server_build ca_usable server_builder (before ++ OpTls c :: after) = BuildOk sv /\
+    server_build key_matches server_builder (before ++ OpTls c :: after) = BuildOk sv /\
     server_listener sv = STls a.
 Proof. exact @builder_preserves_tls. Qed.
 
-(* ... so a server built that way with a client CA serves only TLS clients with a certificate
-   of that CA (or none, if optional) *)
+(* ANY sequence of builder calls, tls_config any number of times: a build that succeeds listens
+   with the acceptor of the LAST tls_config call, in plaintext if there was none *)
+Theorem c15_builder_last_tls_wins :
+  forall (cert ca : Type) (key_matches : cert -> cert -> bool) (ops : list (@builder_op cert ca))
+         (sv : Server),
+  server_build key_matches server_builder ops = BuildOk sv ->
+  match last_tls ops with
+  | None => server_listener sv = SPlain
+  | Some c => exists a, tls_acceptor key_matches c = AccOk a /\ server_listener sv = STls a
+  end.
+Proof. exact @builder_last_tls_wins. Qed.
+
+(* ... so a server built in any way whose last tls_config names a client CA blob serves only TLS
+   clients with a certificate issued by a CA of that blob (or none, if optional) *)
 Theorem c15_built_server_enforces_client_auth :
-  forall (cert ca dname : Type) (client_cert_ok : ca -> cert -> bool) (ca_usable : ca -> bool)
+  forall (cert ca dname : Type) (client_cert_ok : ca -> cert -> bool) (key_matches : cert -> cert -> bool)
          (rc : @TlsConnector cert ca dname -> @server cert ca -> hs_client)
          (ra : TlsAcceptor -> option cert -> hs_server),
   accept_sound client_cert_ok ra ->
-  forall (f : features) (before after : list builder_op) (c : ServerTlsConfig) (a : TlsAcceptor)
-         (root : ca) (sv : Server) (e : Endpoint),
-  Forall not_tls_op before -> Forall not_tls_op after ->
-  tls_acceptor ca_usable c = AccOk a -> s_client_ca_root c = Some root ->
-  server_build ca_usable server_builder (before ++ OpTls c :: after) = BuildOk sv ->
+  forall (f : features) (ops : list builder_op) (c : ServerTlsConfig) (blob : list (pem_sec ca))
+         (sv : Server) (e : Endpoint),
+  server_build key_matches server_builder ops = BuildOk sv ->
+  last_tls ops = Some c -> s_client_ca_root c = Some blob ->
   request_reaches_handler rc ra f e (server_listener sv) = true ->
   f_tls f && is_https (e_scheme e) = true /\
-  ((exists ci : cert, endpoint_identity e = Some ci /\ client_cert_ok root ci = true) \/
+  ((exists (ci : cert) (r : ca), endpoint_identity e = Some ci /\ In (SecCert r) blob /\
+                                 client_cert_ok r ci = true) \/
    (s_client_auth_optional c = true /\ endpoint_identity e = None)).
-Proof. exact @built_server_enforces_client_auth. Qed.
+Proof.
+  exact (fun cert ca dname cco km rc ra H => @built_server_enforces_client_auth cert ca dname cco km rc ra H).
+Qed.
 
-(* a server configured with a client CA serves only clients presenting a certificate issued by
-   it, unless client authentication was made optional and none was presented *)
+(* a server configured with a client CA blob serves only clients presenting a certificate issued
+   by one of the CAs in it, unless client authentication was made optional and none was
+   presented; and the handler's TlsConnectInfo holds exactly that certificate *)
 Theorem c15_client_auth_enforced :
   forall (cert ca dname : Type) (client_cert_ok : ca -> cert -> bool)
          (rc : @TlsConnector cert ca dname -> @server cert ca -> hs_client)
          (ra : TlsAcceptor -> option cert -> hs_server),
   accept_sound client_cert_ok ra ->
-  forall (ca_usable : ca -> bool) (f : features) (s : ServerTlsConfig) (a : TlsAcceptor) (root : ca)
-         (e : Endpoint),
-  tls_acceptor ca_usable s = AccOk a -> s_client_ca_root s = Some root ->
+  forall (key_matches : cert -> cert -> bool) (f : features) (s : ServerTlsConfig) (a : TlsAcceptor)
+         (blob : list (pem_sec ca)) (e : Endpoint),
+  tls_acceptor key_matches s = AccOk a -> s_client_ca_root s = Some blob ->
   request_reaches_handler rc ra f e (STls a) = true ->
-  (exists c : cert, endpoint_identity e = Some c /\ client_cert_ok root c = true) \/
-  (s_client_auth_optional s = true /\ endpoint_identity e = None).
-Proof. exact (fun cert ca dname cco rc ra H cu => @client_auth_enforced cert ca dname cco cu rc ra H). Qed.
+  (exists (c : cert) (r : ca), endpoint_identity e = Some c /\ In (SecCert r) blob /\
+                               client_cert_ok r c = true /\
+                               peer_certs_exposed rc ra f e (STls a) = Some c) \/
+  (s_client_auth_optional s = true /\ endpoint_identity e = None /\
+   peer_certs_exposed rc ra f e (STls a) = None).
+Proof. exact (fun cert ca dname cco rc ra H km => @client_auth_enforced cert ca dname cco km rc ra H). Qed.
+
+(* The listener over time (io_stream.rs as a state machine; schedules are data).  An event is:
+   the incoming stream yields connection k / an error / ends, or the accept task of connection k
+   finishes; [accept k] is what that task produced.  For EVERY event list:
+   a connection is handed to serve_internal only if it came in and ITS OWN accept task
+   succeeded, with the stream that task produced - whatever the other connections do ... *)
+Theorem c15_listener_yield_sound :
+  forall (io : Type) (accept : nat -> option io) (evs : list sio_event) (tasks : list nat)
+         (k : nat) (x : io),
+  In (OutIo k x) (sio_run accept tasks evs) ->
+  accept k = Some x /\ (In k tasks \/ In k (arrivals evs)).
+Proof. exact @sio_yield_sound. Qed.
+
+(* ... at most once ... *)
+Theorem c15_listener_yield_once :
+  forall (io : Type) (accept : nat -> option io) (evs : list sio_event) (tasks : list nat),
+  NoDup (tasks ++ arrivals evs) -> NoDup (yielded (sio_run accept tasks evs)).
+Proof. exact @sio_yield_once. Qed.
+
+(* ... and it IS handed on once its accept task has succeeded, whatever happens in between (other
+   connections coming in, handshakes that fail or never finish, non-fatal accept errors), unless
+   the incoming stream ended first *)
+Theorem c15_listener_yield_complete :
+  forall (io : Type) (accept : nat -> option io) (pre mid post : list sio_event) (k : nat) (x : io),
+  accept k = Some x -> no_end pre -> no_end mid ->
+  In (OutIo k x) (sio_run accept [] (pre ++ EvIncoming k :: mid ++ EvTaskDone k :: post)).
+Proof. exact @sio_yield_complete. Qed.
+
+(* with the accept tasks of the TLS model: client k's connection reaches serve_internal, in any
+   schedule, only as what [listener_yields] says for client k alone *)
+Theorem c15_listener_any_schedule :
+  forall (cert ca dname : Type) (rc : @TlsConnector cert ca dname -> @server cert ca -> hs_client)
+         (ra : TlsAcceptor -> option cert -> hs_server) (f : features) (a : TlsAcceptor)
+         (clients : nat -> Endpoint) (evs : list sio_event) (k : nat) (x : server_io),
+  In (OutIo k x) (sio_run (fun j => listener_yields rc ra f (clients j) (STls a)) [] evs) ->
+  listener_yields rc ra f (clients k) (STls a) = Some x /\ In k (arrivals evs).
+Proof.
+  exact (fun cert ca dname rc ra f a clients evs k x H =>
+           match @sio_yield_sound _ (fun j => listener_yields rc ra f (clients j) (STls a)) evs [] k x H with
+           | conj A (or_introl B) => match B with end
+           | conj A (or_intror B) => conj A B
+           end).
+Qed.
 
 (* Session resumption cannot carry a client past another server's client authentication.
    Every tls_acceptor call builds a ServerConfig with a session store of its own
@@ -224,19 +378,20 @@ Proof. exact (fun cert ca dname cco rc ra H cu => @client_auth_enforced cert ca 
    yields satisfies that listener's own verifier: its peer certificates are the client's
    certificate verified against THIS listener's client CA (or none, if optional / no client auth) *)
 Theorem c15_no_cross_server_resumption :
-  forall (cert ca : Type) (client_cert_ok : ca -> cert -> bool) (ca_usable : ca -> bool)
+  forall (cert ca : Type) (client_cert_ok : ca -> cert -> bool) (key_matches : cert -> cert -> bool)
          (ra : @TlsAcceptor cert ca -> option cert -> hs_server),
   accept_sound client_cert_ok ra ->
   forall rr : listener -> ticket -> option (option cert),
   resume_sound rr ->
   forall (cfgs : list ServerTlsConfig) (ident : option cert) (ls : list listener)
          (l : listener) (pc : option cert),
-  Forall (fun l0 => In l0 (listeners (spawn_servers ca_usable cfgs))) ls ->
+  Forall (fun l0 => In l0 (listeners (spawn_servers key_matches cfgs))) ls ->
   In (l, SrvAccept pc) (combine ls (visits ra rr ident None ls)) ->
   match a_verifier (l_acc l) with
   | NoClientAuth => pc = None
-  | WebPki root allow =>
-      (exists c : cert, ident = Some c /\ pc = Some c /\ client_cert_ok root c = true) \/
+  | WebPki roots allow =>
+      (exists (c : cert) (r : ca), ident = Some c /\ pc = Some c /\ In r roots /\
+                                   client_cert_ok r c = true) \/
       (allow = true /\ ident = None /\ pc = None)
   end.
 Proof.
@@ -246,12 +401,12 @@ Qed.
 
 (* ... indeed what a listener yields does not depend on where the client has been before *)
 Theorem c15_resumption_transparent :
-  forall (cert ca : Type) (ca_usable : ca -> bool)
+  forall (cert ca : Type) (key_matches : cert -> cert -> bool)
          (ra : @TlsAcceptor cert ca -> option cert -> hs_server)
          (rr : listener -> ticket -> option (option cert)),
   resume_sound rr ->
   forall (cfgs : list ServerTlsConfig) (ident : option cert) (ls : list listener),
-  Forall (fun l => In l (listeners (spawn_servers ca_usable cfgs))) ls ->
+  Forall (fun l => In l (listeners (spawn_servers key_matches cfgs))) ls ->
   visits ra rr ident None ls = map (fun l => ra (l_acc l) ident) ls.
 Proof.
   exact (fun cert ca cu ra rr Hr => @resumption_transparent_spawned cert ca cu ra rr Hr).
@@ -259,8 +414,8 @@ Qed.
 
 (* the listeners of one process never share a store *)
 Theorem c15_spawned_servers_own_their_stores :
-  forall (cert ca : Type) (ca_usable : ca -> bool) (cfgs : list (@ServerTlsConfig cert ca)),
-  store_injective (listeners (spawn_servers ca_usable cfgs)).
+  forall (cert ca : Type) (key_matches : cert -> cert -> bool) (cfgs : list (@ServerTlsConfig cert ca)),
+  store_injective (listeners (spawn_servers key_matches cfgs)).
 Proof. exact @spawn_servers_store_injective. Qed.
 
 (* optional + a certificate that does not verify: rejected, not treated as anonymous *)
@@ -269,9 +424,9 @@ Theorem c15_bad_client_cert_always_rejected :
          (rc : @TlsConnector cert ca dname -> @server cert ca -> hs_client)
          (ra : TlsAcceptor -> option cert -> hs_server),
   accept_sound client_cert_ok ra ->
-  forall (f : features) (e : Endpoint) (a : TlsAcceptor) (root : ca) (allow : bool) (c : cert),
-  a_verifier a = WebPki root allow ->
-  endpoint_identity e = Some c -> client_cert_ok root c = false ->
+  forall (f : features) (e : Endpoint) (a : TlsAcceptor) (roots : list ca) (allow : bool) (c : cert),
+  a_verifier a = WebPki roots allow ->
+  endpoint_identity e = Some c -> (forall r : ca, In r roots -> client_cert_ok r c = false) ->
   request_reaches_handler rc ra f e (STls a) = false.
 Proof. exact @bad_client_cert_always_rejected. Qed.
 
@@ -285,28 +440,61 @@ Theorem c15_peer_certs_iff_presented :
   request_reaches_handler rc ra f e (STls a) = true ->
   forall c : cert,
   peer_certs_exposed rc ra f e (STls a) = Some c <->
-  exists (root : ca) (allow : bool),
-    a_verifier a = WebPki root allow /\ endpoint_identity e = Some c /\ client_cert_ok root c = true.
+  exists (roots : list ca) (allow : bool) (r : ca),
+    a_verifier a = WebPki roots allow /\ endpoint_identity e = Some c /\ In r roots /\
+    client_cert_ok r c = true.
 Proof. exact @peer_certs_iff_presented. Qed.
 
-(* Request::peer_certs finds them only behind a TcpConnectInfo; without a handler there is
-   nothing to see *)
+(* What the handler finds in its request ([handler_exts]: ServerIo::connect_info + ConnectInfo::call,
+   the function the correspondence run evaluates).  Over a TLS listener: the io's own connect
+   info and the TlsConnectInfo around it holding the session's peer certificates;
+   Request::peer_certs (a lookup of TlsConnectInfo<TcpConnectInfo>) returns them iff the io's
+   connect info is TcpConnectInfo - over any other IO type it answers None although the
+   certificates are in the extensions *)
+Theorem c15_handler_sees_peer_certs :
+  forall (cert ca dname : Type) (rc : @TlsConnector cert ca dname -> @server cert ca -> hs_client)
+         (ra : TlsAcceptor -> option cert -> hs_server) (f : features) (e : Endpoint) (a : TlsAcceptor)
+         (t : info_ty),
+  request_reaches_handler rc ra f e (STls a) = true ->
+  let exts := handler_exts rc ra t f e (STls a) in
+  exts = [ExtConn t; ExtTls t (peer_certs_exposed rc ra f e (STls a))] /\
+  ext_tls_certs t exts = Some (peer_certs_exposed rc ra f e (STls a)) /\
+  request_peer_certs exts = match t with
+                            | InfoTcp => peer_certs_exposed rc ra f e (STls a)
+                            | InfoOther => None
+                            end.
+Proof. exact @handler_sees_peer_certs. Qed.
+
+(* over a plaintext listener there is no TlsConnectInfo of any type *)
+Theorem c15_plaintext_handler_sees_no_tls_info :
+  forall (cert ca dname : Type) (rc : @TlsConnector cert ca dname -> @server cert ca -> hs_client)
+         (ra : TlsAcceptor -> option cert -> hs_server) (f : features) (e : Endpoint) (t t' : info_ty),
+  ext_tls_certs t' (handler_exts rc ra t f e SPlain) = None /\
+  request_peer_certs (handler_exts rc ra t f e SPlain) = None.
+Proof. exact @plaintext_handler_sees_no_tls_info. Qed.
+
+(* whatever Request::peer_certs returns is the verified certificate of a connection on which a
+   handler runs *)
 Theorem c15_request_peer_certs :
-  forall (cert : Type) (io_is_tcp : bool) (pc : option cert),
-  request_peer_certs io_is_tcp pc = if io_is_tcp then pc else None.
-Proof. exact @request_peer_certs_spec. Qed.
+  forall (cert ca dname : Type) (rc : @TlsConnector cert ca dname -> @server cert ca -> hs_client)
+         (ra : TlsAcceptor -> option cert -> hs_server) (f : features) (e : Endpoint) (srv : server)
+         (t : info_ty) (c : cert),
+  request_peer_certs (handler_exts rc ra t f e srv) = Some c ->
+  t = InfoTcp /\ request_reaches_handler rc ra f e srv = true /\
+  peer_certs_exposed rc ra f e srv = Some c.
+Proof. exact @request_peer_certs_sound. Qed.
 
 (* end to end from the two configurations: a handler ran for an https endpoint => everything *)
 Theorem c15_served_over_https_implies_all :
   forall (cert ca dname : Type) (chain_ok : list ca -> cert -> bool) (name_ok : dname -> cert -> bool)
          (client_cert_ok : ca -> cert -> bool) (valid_name : dname -> bool)
-         (native_certs webpki_roots : list ca)
+         (key_matches : cert -> cert -> bool) (native_certs webpki_roots : list ca)
          (rc : @TlsConnector cert ca dname -> @server cert ca -> hs_client)
          (ra : TlsAcceptor -> option cert -> hs_server),
   connect_sound chain_ok name_ok rc -> accept_sound client_cert_ok ra ->
   forall (f : features) (h : option dname) (c : ClientTlsConfig) (e : Endpoint) (srv : server),
   f_tls f = true ->
-  endpoint_tls_config valid_name native_certs webpki_roots f (endpoint_from_uri Https h) c = inr e ->
+  endpoint_tls_config valid_name key_matches native_certs webpki_roots f (endpoint_from_uri Https h) c = inr e ->
   request_reaches_handler rc ra f e srv = true ->
   exists (a : TlsAcceptor) (d : dname) (alpn : option proto),
     srv = STls a /\ effective_domain c h = Some d /\
@@ -316,14 +504,15 @@ Theorem c15_served_over_https_implies_all :
     (alpn = Some ALPN_H2 \/ c_assume_http2 c = true) /\
     match a_verifier a with
     | NoClientAuth => peer_certs_exposed rc ra f e srv = None
-    | WebPki root allow =>
-        (exists ci : cert, c_identity c = Some ci /\ client_cert_ok root ci = true /\
+    | WebPki roots allow =>
+        (exists (ci : cert) (r : ca), identity_leaf key_matches (c_identity c) = Some ci /\
+                           In r roots /\ client_cert_ok r ci = true /\
                            peer_certs_exposed rc ra f e srv = Some ci) \/
         (allow = true /\ c_identity c = None /\ peer_certs_exposed rc ra f e srv = None)
     end.
 Proof.
-  exact (fun cert ca dname ck nk cco vn nat web rc ra Hc Ha =>
-           @served_over_https_implies_all cert ca dname ck nk cco vn nat web rc ra Hc Ha).
+  exact (fun cert ca dname ck nk cco vn km nat web rc ra Hc Ha =>
+           @served_over_https_implies_all cert ca dname ck nk cco vn km nat web rc ra Hc Ha).
 Qed.
 
 (* the same with Endpoint::origin called before and/or after tls_config: the certificate is
@@ -331,14 +520,14 @@ Qed.
 Theorem c15_served_over_https_implies_all_with_origin :
   forall (cert ca dname : Type) (chain_ok : list ca -> cert -> bool) (name_ok : dname -> cert -> bool)
          (client_cert_ok : ca -> cert -> bool) (valid_name : dname -> bool)
-         (native_certs webpki_roots : list ca)
+         (key_matches : cert -> cert -> bool) (native_certs webpki_roots : list ca)
          (rc : @TlsConnector cert ca dname -> @server cert ca -> hs_client)
          (ra : TlsAcceptor -> option cert -> hs_server),
   connect_sound chain_ok name_ok rc -> accept_sound client_cert_ok ra ->
   forall (f : features) (o_before o_after : option (scheme * option dname)) (h : option dname)
          (c : ClientTlsConfig) (e0 : Endpoint) (srv : server),
   f_tls f = true ->
-  endpoint_tls_config valid_name native_certs webpki_roots f
+  endpoint_tls_config valid_name key_matches native_certs webpki_roots f
     (apply_origin o_before (endpoint_from_uri Https h)) c = inr e0 ->
   let e := apply_origin o_after e0 in
   request_reaches_handler rc ra f e srv = true ->
@@ -350,15 +539,70 @@ Theorem c15_served_over_https_implies_all_with_origin :
     (alpn = Some ALPN_H2 \/ c_assume_http2 c = true) /\
     match a_verifier a with
     | NoClientAuth => peer_certs_exposed rc ra f e srv = None
-    | WebPki root allow =>
-        (exists ci : cert, c_identity c = Some ci /\ client_cert_ok root ci = true /\
+    | WebPki roots allow =>
+        (exists (ci : cert) (r : ca), identity_leaf key_matches (c_identity c) = Some ci /\
+                           In r roots /\ client_cert_ok r ci = true /\
                            peer_certs_exposed rc ra f e srv = Some ci) \/
         (allow = true /\ c_identity c = None /\ peer_certs_exposed rc ra f e srv = None)
     end.
 Proof.
-  exact (fun cert ca dname ck nk cco vn nat web rc ra Hc Ha =>
-           @served_over_https_implies_all_o cert ca dname ck nk cco vn nat web rc ra Hc Ha).
+  exact (fun cert ca dname ck nk cco vn km nat web rc ra Hc Ha =>
+           @served_over_https_implies_all_o cert ca dname ck nk cco vn km nat web rc ra Hc Ha).
 Qed.
+
+(* the same from ANY Uri endpoint for an https URI ([e00]: an origin set, an earlier tls_config
+   done - two tls_config calls: the second configuration is the one that counts) *)
+Theorem c15_served_over_https_implies_all_gen :
+  forall (cert ca dname : Type) (chain_ok : list ca -> cert -> bool) (name_ok : dname -> cert -> bool)
+         (client_cert_ok : ca -> cert -> bool) (valid_name : dname -> bool)
+         (key_matches : cert -> cert -> bool) (native_certs webpki_roots : list ca)
+         (rc : @TlsConnector cert ca dname -> @server cert ca -> hs_client)
+         (ra : TlsAcceptor -> option cert -> hs_server),
+  connect_sound chain_ok name_ok rc -> accept_sound client_cert_ok ra ->
+  forall (f : features) (e00 : Endpoint) (o_after : option (scheme * option dname))
+         (c : ClientTlsConfig) (e0 : Endpoint) (srv : server),
+  f_tls f = true -> e_scheme e00 = Https ->
+  endpoint_tls_config valid_name key_matches native_certs webpki_roots f e00 c = inr e0 ->
+  let e := apply_origin o_after e0 in
+  request_reaches_handler rc ra f e srv = true ->
+  exists (a : TlsAcceptor) (d : dname) (alpn : option proto),
+    srv = STls a /\ effective_domain c (e_host e00) = Some d /\
+    chain_ok (configured_roots native_certs webpki_roots f c) (a_cert a) = true /\
+    name_ok d (a_cert a) = true /\
+    connect_outcome rc f e srv = ConnTls alpn /\
+    (alpn = Some ALPN_H2 \/ c_assume_http2 c = true) /\
+    match a_verifier a with
+    | NoClientAuth => peer_certs_exposed rc ra f e srv = None
+    | WebPki roots allow =>
+        (exists (ci : cert) (r : ca), identity_leaf key_matches (c_identity c) = Some ci /\
+                           In r roots /\ client_cert_ok r ci = true /\
+                           peer_certs_exposed rc ra f e srv = Some ci) \/
+        (allow = true /\ c_identity c = None /\ peer_certs_exposed rc ra f e srv = None)
+    end.
+Proof.
+  exact (fun cert ca dname ck nk cco vn km nat web rc ra Hc Ha =>
+           @served_over_https_implies_all_gen cert ca dname ck nk cco vn km nat web rc ra Hc Ha).
+Qed.
+
+(* For the reference handshake (what rustls does as far as the three predicates determine it; the
+   instance the correspondence run compares with real handshakes) the property is an EQUIVALENCE
+   for EVERY configuration, not only the cells of the matrix: over an https endpoint with a
+   connector, against a TLS listener, a handler runs iff the ALPN negotiation does not abort, the
+   certificate chains to the connector's roots and matches its name, h2 was selected or the
+   caller opted out, and the listener's verifier admits the client's identity *)
+Theorem c15_reference_served_iff :
+  forall (cert ca dname : Type) (chain_ok : list ca -> cert -> bool) (name_ok : dname -> cert -> bool)
+         (client_cert_ok : ca -> cert -> bool) (anchor_named : list ca -> cert -> bool)
+         (f : features) (e : @Endpoint cert ca dname) (a : TlsAcceptor) (t : TlsConnector),
+  f_tls f = true -> is_https (e_scheme e) = true -> e_tls e = Some t ->
+  (request_reaches_handler (ref_connect chain_ok name_ok anchor_named) (ref_accept client_cert_ok)
+     f e (STls a) = true <->
+   ref_negotiate (tc_alpn t) (a_alpn a) <> NegAbort /\
+   chain_ok (tc_roots t) (a_cert a) = true /\
+   name_ok (tc_domain t) (a_cert a) = true /\
+   (ref_negotiate (tc_alpn t) (a_alpn a) = NegProto ALPN_H2 \/ tc_assume_http2 t = true) /\
+   ref_admits client_cert_ok a (tc_identity t) = true).
+Proof. exact @ref_served_iff. Qed.
 
 (* The complete matrix (finite domain, bound in the statement: every value of the record
    [cell] = 3 roots x 3 domain configurations x 2 URI hosts x 2 server certificates x 3 server
@@ -384,7 +628,7 @@ Proof. exact (conj t_connect_sound (conj t_accept_sound (ref_resume_sound certid
    client without certificate into the strict one (first line), separate stores do not (second) *)
 Example c15_shared_store_breaks_client_auth :
   let open_a := {| a_cert := SrvExample; a_verifier := NoClientAuth; a_alpn := [ALPN_H2] |} in
-  let strict_a := {| a_cert := SrvExample; a_verifier := WebPki CA2 false; a_alpn := [ALPN_H2] |} in
+  let strict_a := {| a_cert := SrvExample; a_verifier := WebPki [CA2] false; a_alpn := [ALPN_H2] |} in
   visits t_accept ref_resume None None
     [ {| l_store := 0; l_acc := open_a |}; {| l_store := 0; l_acc := strict_a |} ]
     = [SrvAccept None; SrvAccept None] /\
@@ -414,21 +658,64 @@ Example c15_server_handshake_without_request :
 Proof. exact server_handshake_without_request. Qed.
 (* the platform trusting the server's CA changes nothing unless the flag is set *)
 Example c15_native_roots_need_the_flag :
-  obs_call [CA1] true Https (Some DExample) (Some (ca_certificate cfg0 CA2)) (mk_srv SrvExample None false)
-    = Nd [Nn 3; Nn 0; Nd []; Nd []; Nn 1] /\
-  obs_call [CA1] true Https (Some DExample) (Some (with_native_roots (ca_certificate cfg0 CA2)))
-    (mk_srv SrvExample None false) = Nd [Nn 0; Nn 1; Nd []; Nd []; Nn 1].
+  obs_call [CA1] true Https (Some DExample) (Some (ca_certificate cfg0 (pem1 CA2))) (mk_srv SrvExample None false)
+    = Nd [Nn 3; Nn 0; Nd []; Nd []; Nn 0; Nn 1] /\
+  obs_call [CA1] true Https (Some DExample) (Some (with_native_roots (ca_certificate cfg0 (pem1 CA2))))
+    (mk_srv SrvExample None false) = Nd [Nn 0; Nn 1; Nd []; Nd []; Nn 1; Nn 1].
 Proof. split; reflexivity. Qed.
 Example c15_transmitted_is_reachable :
   exists e srv, is_https (e_scheme e) = true /\ call_transmitted (t_outcome e srv) = true /\
                 t_reaches e srv = true.
 Proof.
-  exists {| e_scheme := Https; e_host := Some DExample; e_origin := None;
+  exists {| e_uds := false; e_scheme := Https; e_host := Some DExample; e_origin := None;
             e_tls := Some {| tc_roots := [CA1]; tc_identity := None; tc_alpn := [ALPN_H2];
                              tc_domain := DExample; tc_assume_http2 := false |} |},
          (mk_srv SrvExample None false).
   repeat split; reflexivity.
 Qed.
+
+(* a client CA blob holding two CAs admits the certificates of both and only those; junk next to
+   a CA is skipped; a blob without a certificate and a blob with an undecodable section are
+   refused when the server is configured *)
+Example c15_client_ca_bundle :
+  let srv := fun blob => mk_server_cfg_pem (Some (good_id SrvExample)) (Some blob) false in
+  let cl := fun id => Some (identity (ca_certificate cfg0 (pem1 CA1)) (good_id id)) in
+  obs_call_cfg [] Https (Some DExample) (cl CliCA2) (srv [SecCert CA1; SecCert CA2])
+    = Nd [Nn 0; Nn 1; Nd [Nn 1]; Nd [Nn 1]; Nn 1; Nn 1] /\
+  obs_call_cfg [] Https (Some DExample) (cl CliCA1) (srv [SecCert CA1; SecCert CA2])
+    = Nd [Nn 0; Nn 1; Nd [Nn 2]; Nd [Nn 2]; Nn 1; Nn 1] /\
+  obs_call_cfg [] Https (Some DExample) (cl CliCA1) (srv [SecJunk; SecCert CA2])
+    = Nd [Nn 6; Nn 0; Nd []; Nd []; Nn 0; Nn 1] /\
+  obs_acceptor (srv [SecJunk]) = Nd [Nn 2; Nn 7] /\
+  obs_acceptor (srv [SecCert CA2; SecBroken]) = Nd [Nn 2; Nn 5].
+Proof. repeat split; reflexivity. Qed.
+(* two tls_config calls: the last one decides *)
+Example c15_last_tls_config_decides :
+  let strict := OpTls (mk_server_cfg (Some SrvExample) (Some CA2) false) in
+  let open := OpTls (mk_server_cfg (Some SrvExample) None false) in
+  let anon := Some (ca_certificate cfg0 (pem1 CA1)) in
+  obs_call_built [] Https (Some DExample) anon [open; OpLayer; strict]
+    = Nd [Nn 6; Nn 0; Nd []; Nd []; Nn 0; Nn 1] /\
+  obs_call_built [] Https (Some DExample) anon [strict; OpLayer; open]
+    = Nd [Nn 0; Nn 1; Nd []; Nd []; Nn 1; Nn 1].
+Proof. split; reflexivity. Qed.
+(* the origin is where the requests say they go, the URI is where the connection goes *)
+Example c15_origin_names_requests_only :
+  obs_call_origin [] (Some (Http, Some DOther)) None Https (Some DExample)
+    (ca_certificate cfg0 (pem1 CA1)) (mk_srv SrvExample None false)
+  = Nd [Nd [Nn 0; Nn 1; Nd []; Nd []; Nn 1; Nn 1]; Nd [Nn 0; Nd [Nn 2]]] /\
+  obs_call_origin [] (Some (Https, Some DOther)) None Https (Some DExample)
+    (ca_certificate cfg0 (pem1 CA1)) (mk_srv SrvOther None false)
+  = Nd [Nd [Nn 4; Nn 0; Nd []; Nd []; Nn 0; Nn 1]; Nd []].
+Proof. split; reflexivity. Qed.
+
+(* a schedule: connection 0 never finishes its handshake, 1 fails, 2 succeeds, 3 arrives after 2 was served *)
+Example c15_listener_schedule :
+  sio_run (fun k => match k with 2 => Some 22 | 3 => Some 33 | _ => None end)%nat []
+    [EvIncoming 0; EvIncoming 1; EvIncoming 2; EvTaskDone 1; EvIncomingErr false; EvTaskDone 2;
+     EvIncoming 3; EvTaskDone 3; EvIncomingEnd; EvTaskDone 0]%nat
+  = [OutIo 2 22; OutIo 3 33]%nat.
+Proof. reflexivity. Qed.
 
 Print Assumptions c15_call_sent_implies_authenticated.
 Print Assumptions c15_https_without_tls_fails.
@@ -441,3 +728,15 @@ Print Assumptions c15_no_cross_server_resumption.
 Print Assumptions c15_builder_preserves_tls.
 Print Assumptions c15_built_server_enforces_client_auth.
 Print Assumptions c15_matrix_complete.
+Print Assumptions c15_connect_failure_reaches_no_handler.
+Print Assumptions c15_handler_iff.
+Print Assumptions c15_https_connect_cases.
+Print Assumptions c15_builder_last_tls_wins.
+Print Assumptions c15_handler_sees_peer_certs.
+Print Assumptions c15_request_peer_certs.
+Print Assumptions c15_acceptor_wiring.
+Print Assumptions c15_served_over_https_implies_all_gen.
+Print Assumptions c15_reference_served_iff.
+Print Assumptions c15_listener_yield_sound.
+Print Assumptions c15_listener_yield_once.
+Print Assumptions c15_listener_yield_complete.
